@@ -357,7 +357,7 @@ def check_history(w):
         except Exception as e:
             return True, f"step {k + 1} of {len(steps)} on one {setup}({N}) processor: {how} raises {type(e).__name__}: {str(e)[:80]}"
         d = float(np.abs(U - V).max())
-        if d > 1e-9:
+        if d > 1e-9 + tiny_slack(step_witness(w, s)):
             same = [j + 1 for j in range(k) if steps[j]["gates"] == s["gates"]]
             f1, d1 = check_property(step_witness(w, s))
             return True, (f"step {k + 1} of {len(steps)} on ONE {setup}({N}) processor, {how}: propagator of the loaded pulses "
@@ -417,9 +417,11 @@ def check_property(w):
     except Exception as e:
         return True, f"run_analytically raises {type(e).__name__}: {str(e)[:80]}"
     d = float(np.abs(U - V).max())
-    if d > 1e-9:
+    slack = tiny_slack(w)
+    if d > 1e-9 + slack:
         return True, (f"propagator of the compiled pulses (reported global phase {proc.global_phase:.6g} included) differs from "
-                      f"the circuit unitary by {d:.3g}")
+                      f"the circuit unitary by {d:.3g}" +
+                      (f" (rotations by {slack:.2g} in total have pulses below the grid resolution 1e-10)" if slack else ""))
     return False, f"same unitary (max entry difference {d:.2g})"
 
 
@@ -457,6 +459,29 @@ def tiny_rotation(w):
             if abs(g[3]) / (4 * math.pi * top) <= 1.05 * GRID_TOL:
                 return True
     return False
+
+
+def tiny_slack(w):
+    """what a load may lose on a tree whose resampling only drops the slice of a pulse shorter than the grid resolution
+    (fixes/C14-7): the sum of the angles of the rotations of class `grid-step-below-tol` (each dropped rotation R(theta)
+    differs from the identity by about |theta|/2)"""
+    if w.get("kind") != "load" or not tiny_rotation(w):
+        return 0.0
+    tot = 0.0
+    for g in w["gates"]:
+        if g[0] in ("RX", "RY", "RZ", "PHASEGATE") and isinstance(g[3], (int, float)) and g[3] != 0:
+            if tiny_rotation({"kind": "load", "params": w.get("params"), "gates": [g]}):
+                tot += abs(g[3])
+    return tot
+
+
+def catchup_flag():
+    """does _fill_coeff catch up over several slots (fixes/C14-7.patch applied)?  read from the source by C14's translator"""
+    from props import c14
+    try:
+        return bool(c14.detect_flags()["cu"])
+    except TranslatorError:
+        return False
 
 
 TINY_WITNESS = {"kind": "load", "setup": "linear", "N": 1, "mode": "ASAP", "params": None,
@@ -1215,6 +1240,11 @@ class C06(PropertyCheck):
     def oracle_replay(self, ctx, w):
         return check_property(w)
 
+    def _catchup(self):
+        if getattr(self, "_cu", None) is None:
+            self._cu = catchup_flag()
+        return self._cu
+
     def finding_matches(self, witness, finding):
         if finding.get("class") == "grid-step-below-tol":
             return tiny_rotation(witness)
@@ -1224,9 +1254,10 @@ class C06(PropertyCheck):
         """classes the hypotheses of end_to_end_partial exclude for the source as it is now"""
         if w.get("kind") == "label":
             return False
-        if tiny_rotation(w) and not class_recorded():
-            # excluded by hypothesis (SepAll); once the class is a recorded known finding its members are evaluated and
-            # matched by finding_matches (KNOWN-FINDING), not skipped
+        if tiny_rotation(w) and not (class_recorded() or self._catchup()):
+            # excluded by hypothesis (SepAll).  Tree as found: once the class is a recorded known finding its members are
+            # evaluated and matched by finding_matches (KNOWN-FINDING).  Repaired tree (fixes/C14-7): members are evaluated and
+            # must agree up to the slices of the pulses below the resolution (tiny_slack)
             return True
         if w.get("kind") == "history":
             return any(self._excluded(step_witness(w, s)) for s in w["steps"])
